@@ -28,7 +28,7 @@ use refsql_run::*;
 #[derive(Clone, Debug)]
 struct Param { k: usize, v: V, ty: Ty, sites: Vec<String> }
 
-struct Inst<'a> { rng: &'a mut Rng, all: bool, params: Vec<Param>, ctx: Vec<&'static str>, depth: usize, nsites: usize }
+struct Inst<'a> { rng: &'a mut Rng, all: bool, skip: Vec<usize>, params: Vec<Param>, ctx: Vec<&'static str>, depth: usize, nsites: usize }
 
 const LIM_BASE: u64 = 9_000_000_000;
 
@@ -42,6 +42,7 @@ impl<'a> Inst<'a> {
     /// decide whether the literal (v, ty) at this site becomes a placeholder; returns its index
     fn choose(&mut self, v: &V, ty: Ty, kind: &str) -> Option<usize> {
         self.nsites += 1;
+        if self.all && self.skip.contains(&(self.nsites - 1)) { return None; }
         if !(self.all || self.rng.chance(1, 2)) { return None; }
         let site = self.site(kind);
         if !self.all && self.rng.chance(1, 3) {
@@ -146,8 +147,9 @@ fn bx(e: E) -> Box<E> { Box::new(e) }
 fn c0(k: usize) -> E { E::Col(0, k) }
 fn li(z: i64) -> E { E::Lit(i(z), Ty::Int) }
 
-/// Fixed witness corpus (ids 1000000 + k): every literal of the query becomes its own placeholder.
-fn witnesses() -> Vec<(&'static str, Vec<Tab>, Q)> {
+/// Fixed witness corpus (ids 1000000 + k): every literal of the query becomes its own placeholder, except the listed sites
+/// (ordinal numbers in walk order).  KF1..KF3: one witness per finding proposed for known_findings.json (property C41).
+fn witnesses() -> Vec<(&'static str, Vec<Tab>, Q, Vec<usize>)> {
     let n = V::Null;
     let t0 = Tab { types: vec![Ty::Int, Ty::Str, Ty::Bool], parts: 2, rows: vec![
         vec![i(1), st("a"), V::B(true)], vec![i(2), st("b"), n.clone()], vec![i(3), n.clone(), V::B(false)], vec![n.clone(), st("c"), V::B(true)], vec![i(2), st("a"), V::B(false)]] };
@@ -165,13 +167,23 @@ fn witnesses() -> Vec<(&'static str, Vec<Tab>, Q)> {
     // W3  NULL parameters: c0 = $1 (NULL), COALESCE(c1, $2), NOT IN ($3 NULL, 1)
     let w3 = Q::Project(vec![E::Coalesce(vec![c0(1), E::Lit(st("z"), Ty::Str)]), E::Cmp("=", bx(c0(0)), bx(E::Lit(n.clone(), Ty::Int)))],
         Box::new(Q::Filter(E::Or(bx(E::InList(true, bx(c0(0)), vec![E::Lit(n.clone(), Ty::Int), li(1)])), bx(E::IsNull(false, bx(c0(1))))), Box::new(Q::Table(0)))));
-    vec![("W1", vec![t0.clone()], w1), ("W2", vec![t0.clone(), t1], w2), ("W3", vec![t0], w3)]
+    // KF1  SELECT count(*), sum(c1) FROM t1 HAVING (($1 NOT BETWEEN $2 AND $3) AND $4)       $4 = NULL
+    let kf1 = Q::Group(vec![], vec![(Agg::CountStar, li(1)), (Agg::Sum, c0(1))],
+        Some(E::And(bx(E::Between(true, bx(li(2)), bx(li(2)), bx(li(2)))), bx(E::Lit(n.clone(), Ty::Bool)))), Box::new(Q::Table(1)));
+    // KF2  (SELECT COALESCE($1, $2, $3) FROM t0) EXCEPT (SELECT COALESCE('a', CAST(NULL AS VARCHAR)) FROM t1)
+    let kf2 = Q::SetOp(SetOp::Except, false,
+        Box::new(Q::Project(vec![E::Coalesce(vec![E::Lit(st("b"), Ty::Str), E::Lit(st("a"), Ty::Str), E::Lit(st("a"), Ty::Str)])], Box::new(Q::Table(0)))),
+        Box::new(Q::Project(vec![E::Coalesce(vec![E::Lit(st("a"), Ty::Str), E::Lit(n.clone(), Ty::Str)])], Box::new(Q::Table(1)))));
+    // KF3  SELECT * FROM t0 WHERE ($1 <= $2) OR (c0 <> c0)      PREPARE p AS .. infers type Null for $1, $2
+    let kf3 = Q::Filter(E::Or(bx(E::Cmp("<=", bx(li(2)), bx(li(-1)))), bx(E::Cmp("<>", bx(c0(0)), bx(c0(0))))), Box::new(Q::Table(0)));
+    vec![("KF1", vec![t0.clone(), t1.clone()], kf1, vec![]), ("KF2", vec![t0.clone(), t1.clone()], kf2, vec![3, 4]), ("KF3", vec![t0.clone()], kf3, vec![]),
+         ("W1", vec![t0.clone()], w1, vec![]), ("W2", vec![t0.clone(), t1], w2, vec![]), ("W3", vec![t0], w3, vec![])]
 }
 
-fn run_case(id: u64, stream: &str, tabs: &[Tab], q: &Q, tp: usize, bs: usize, prng: &mut Rng, all: bool, secs: u64) {
+fn run_case(id: u64, stream: &str, tabs: &[Tab], q: &Q, tp: usize, bs: usize, prng: &mut Rng, all: bool, skip: &[usize], secs: u64) {
     let widths: Vec<usize> = tabs.iter().map(|t| t.types.len()).collect();
     let mut pq = q.clone();
-    let (params, nsites) = { let mut ins = Inst { rng: prng, all, params: vec![], ctx: vec![], depth: 0, nsites: 0 }; ins.q(&mut pq); (ins.params, ins.nsites) };
+    let (params, nsites) = { let mut ins = Inst { rng: prng, all, skip: skip.to_vec(), params: vec![], ctx: vec![], depth: 0, nsites: 0 }; ins.q(&mut pq); (ins.params, ins.nsites) };
     let np = params.len();
     let lit_sql = to_sql(q, &widths);
     let pos_sql = placeholder_sql(&pq, &widths, np, &|k| format!("${k}"));
@@ -250,10 +262,10 @@ fn main() {
     let only: i64 = arg(&args, "--case", "-1").parse().unwrap();
     let secs: u64 = arg(&args, "--timeout", "20").parse().unwrap();
     let mut prng = Rng::new(seed ^ 0x4341_3431);
-    for (k, (name, tabs, q)) in witnesses().into_iter().enumerate() {
+    for (k, (name, tabs, q, skip)) in witnesses().into_iter().enumerate() {
         let id = 1_000_000 + k as u64;
         if only >= 0 && id as i64 != only { continue; }
-        run_case(id, &format!("witness:{name}"), &tabs, &q, 2, 8192, &mut prng, true, secs);
+        run_case(id, &format!("witness:{name}"), &tabs, &q, 2, 8192, &mut prng, true, &skip, secs);
     }
     // the query stream is C01's (same generator, same consumption of the PRNG); placeholders are chosen by a second PRNG
     let mut rng = Rng::new(seed);
@@ -265,6 +277,6 @@ fn main() {
         let q = { let mut g = Gen { rng: &mut rng, tabs: tabs.clone() }; g.query(stream) };
         let mut crng = Rng::new(prng.next() ^ id);
         if only >= 0 && id as i64 != only { continue; }
-        run_case(id, stream, &tabs, &q, tp, bs, &mut crng, false, secs);
+        run_case(id, stream, &tabs, &q, tp, bs, &mut crng, false, &[], secs);
     }
 }
